@@ -165,6 +165,12 @@ class QuicPacketBuilder:
         """
         Starts a new frame.
         """
+        # Header protection needs a payload of at least
+        # PACKET_NUMBER_MAX_SIZE - PACKET_NUMBER_SEND_SIZE bytes, _end_packet
+        # pads shorter packets. The first frame must leave room for this.
+        if self.packet_is_empty:
+            capacity = max(capacity, PACKET_NUMBER_MAX_SIZE - PACKET_NUMBER_SEND_SIZE)
+
         if self.remaining_buffer_space < capacity or (
             frame_type not in NON_IN_FLIGHT_FRAME_TYPES
             and self.remaining_flight_space < capacity
